@@ -638,10 +638,10 @@ fn main() {
     let threads = args.get_u64("threads", default_threads).max(2) as usize;
     // Miri interprets channel traffic very slowly: fewer pipeline items there, the scheduler seeds
     // (-Zmiri-many-seeds) supply the variety instead.
-    let rounds = (args.n(6_000, 150_000) / if cfg!(miri) { 3 } else { 1 }).max(2);
-    let items = (args.n(30_000, 600_000) / if cfg!(miri) { 10 } else { 1 }).max(4);
-    let shared = args.n(300, 3_000);
-    let iters = args.n(400, 2_000).max(6);
+    let rounds = (args.n(6_000, 60_000) / if cfg!(miri) { 3 } else { 1 }).max(2);
+    let items = (args.n(30_000, 300_000) / if cfg!(miri) { 10 } else { 1 }).max(4);
+    let shared = args.n(300, 1_500);
+    let iters = args.n(400, 1_000).max(6);
     let max_len = args.n(4_096, 65_536).max(64) as usize;
     let stash_cap = 8;
     let params = json!({"seed": args.seed, "scale": args.scale, "tier": args.tier.as_str(), "threads": threads,
